@@ -100,6 +100,12 @@ Variable translate : bytes -> seginfo -> list cand.
 Hypothesis Hps : (1 <= cf_page_size cfg)%Z.
 Hypothesis Hlen : forall i s, (Z.of_nat (length (translate i s)) + cf_page_size cfg < 2147483648)%Z.
 Hypothesis Hdel : cf_del_checked cfg = true.
+(** source fact: CommitHistory::Push(composition, input) resets [last] in its raw branch *)
+Hypothesis Hhg : cf_hist_guard cfg = true.
+(** the chains of this section: segmentors [abc_segmentor, fallback_segmentor], no punctuator
+    (TotalPunct.v states what holds and what fails for chains with punct_segmentor) *)
+Hypothesis Hseg : cf_segmentors cfg = [SgAbc; SgFallback].
+Hypothesis Hnp : ~ In PPunctuator (cf_processors cfg).
 (** the candidate-shape hypothesis: a candidate covers a non-empty stretch of
     the segment it was made for *)
 Hypothesis Hfit : forall i s c, In c (translate i s) -> si_start s < c_end c /\ c_end c <= si_start s + length i.
@@ -116,7 +122,7 @@ Notation cinvT := (cinv cfg MPf IPt True).
 Notation cpreT := (cpre cfg MPf IPt True).
 Notation sinvT := (sinv cfg MPf IPt True).
 
-Ltac side := first [exact Hps | exact Hlen | exact Hdel | exact HMPf | exact HGEf | exact I | (intros; exact I)].
+Ltac side := first [exact Hps | exact Hlen | exact Hdel | exact Hhg | exact HMPf | exact HGEf | exact I | (intros; exact I)].
 Ltac wf L :=
   first [eapply L with (MP := MPf) (IP := IPt) (GE := True) | eapply L with (MP := MPf) (IP := IPt) | eapply L];
   try side; eauto.
@@ -136,10 +142,13 @@ Lemma g_abc_cur_start sg : cur_start (abc_proceed cfg sg) = cur_start sg.
 Proof. wf abc_proceed_cur_start. Qed.
 Lemma g_reset sg ni : sgeo sg -> sgeo (reset_input sg ni).
 Proof. intros H. wf reset_input_geo. Qed.
-Lemma g_calc caret sg : sgeo sg -> sgeo (fst (calc_segmentation cfg caret sg)) /\ snd (calc_segmentation cfg caret sg) = true.
+Lemma g_calc o h caret sg : sgeo sg -> sgeo (fst (calc_segmentation cfg o h caret sg)) /\ snd (calc_segmentation cfg o h caret sg) = true.
 Proof. intros H. wf calc_segmentation_geo. Qed.
-Lemma g_calc_loop fuel caret sg : sgeo sg -> sgeo (fst (calc_loop cfg fuel caret sg)).
+Lemma g_calc_loop o h fuel caret sg : sgeo sg -> sgeo (fst (calc_loop cfg o h fuel caret sg)).
 Proof. intros H. wf calc_loop_geo. Qed.
+(** a round of this section's chain *)
+Lemma round_eq o h sg : seg_round cfg o h sg = fallback_proceed (abc_proceed cfg sg).
+Proof. unfold seg_round. rewrite Hseg. reflexivity. Qed.
 Lemma g_translate o sg : sgeo sg -> sgeo (fst (translate_segs translate o sg)) /\ snd (translate_segs translate o sg) = true.
 Proof. intros H. wf translate_segs_geo. Qed.
 
@@ -373,13 +382,13 @@ Proof.
   apply fallback_proceed_lfit; assumption.
 Qed.
 
-Lemma calc_loop_lfit b fuel caret sg :
+Lemma calc_loop_lfit b o h fuel caret sg :
   sgeo sg -> lfit b (sg_input sg) (sg_segs sg) ->
-  lfit b (sg_input sg) (sg_segs (fst (calc_loop cfg fuel caret sg))).
+  lfit b (sg_input sg) (sg_segs (fst (calc_loop cfg o h fuel caret sg))).
 Proof.
   revert sg. induction fuel as [|f IH]; intros sg H L; cbn [calc_loop].
   - destruct (has_finished sg); exact L.
-  - destruct (has_finished sg); [exact L|].
+  - destruct (has_finished sg); [exact L|]. rewrite round_eq.
     pose proof (g_fallback _ (g_abc _ H)) as H2.
     pose proof (round_lfit b sg H L) as L2.
     assert (Ei : sg_input (fallback_proceed (abc_proceed cfg sg)) = sg_input sg)
@@ -404,10 +413,10 @@ Definition post_calc (sg1 : segmentation) : segmentation :=
   | [] => sg2
   end.
 
-Lemma calc_segmentation_post caret sg :
-  calc_segmentation cfg caret sg =
-  (post_calc (fst (calc_loop cfg (S (length (sg_input sg))) caret sg)), snd (calc_loop cfg (S (length (sg_input sg))) caret sg)).
-Proof. unfold calc_segmentation, post_calc. destruct (calc_loop cfg (S (length (sg_input sg))) caret sg). reflexivity. Qed.
+Lemma calc_segmentation_post o h caret sg :
+  calc_segmentation cfg o h caret sg =
+  (post_calc (fst (calc_loop cfg o h (S (length (sg_input sg))) caret sg)), snd (calc_loop cfg o h (S (length (sg_input sg))) caret sg)).
+Proof. unfold calc_segmentation, post_calc. destruct (calc_loop cfg o h (S (length (sg_input sg))) caret sg). reflexivity. Qed.
 
 Lemma post_calc_lfit b inp sg1 : lfit b inp (sg_segs sg1) -> lfit b inp (sg_segs (post_calc sg1)).
 Proof.
@@ -438,10 +447,10 @@ Proof.
   - rewrite E2. unfold last_ok, closed. rewrite Ec. discriminate.
 Qed.
 
-Lemma calc_segmentation_lfit b caret sg :
+Lemma calc_segmentation_lfit b o h caret sg :
   sgeo sg -> lfit b (sg_input sg) (sg_segs sg) ->
-  lfit b (sg_input sg) (sg_segs (fst (calc_segmentation cfg caret sg))) /\
-  last_ok (sg_segs (fst (calc_segmentation cfg caret sg))).
+  lfit b (sg_input sg) (sg_segs (fst (calc_segmentation cfg o h caret sg))) /\
+  last_ok (sg_segs (fst (calc_segmentation cfg o h caret sg))).
 Proof.
   intros H L. rewrite calc_segmentation_post. cbn [fst]. split; [|apply post_calc_last].
   apply post_calc_lfit, calc_loop_lfit; assumption.
@@ -506,18 +515,18 @@ Qed.
 Lemma compose_fit_core c :
   cx_err c = None -> sgeo (cx_comp c) ->
   lfit false (sg_input (compose_sg1 c))
-       (sg_segs (fst (calc_loop cfg (S (length (sg_input (compose_sg1 c)))) (cx_caret c) (compose_sg1 c)))) ->
+       (sg_segs (fst (calc_loop cfg (cx_opts c) (cx_hist c) (S (length (sg_input (compose_sg1 c)))) (cx_caret c) (compose_sg1 c)))) ->
   fit (compose cfg translate c).
 Proof.
   intros He Hgeo L. destruct (compose_sg1_facts c Hgeo) as (G1 & P1).
   unfold compose. fold (compose_sg1 c). set (sg1 := compose_sg1 c) in *.
-  destruct (g_calc (cx_caret c) sg1 G1) as (G2 & O2).
-  pose proof (calc_segmentation_input cfg (cx_caret c) sg1) as I2.
-  assert (L2 : lfit false (sg_input sg1) (sg_segs (fst (calc_segmentation cfg (cx_caret c) sg1)))).
+  destruct (g_calc (cx_opts c) (cx_hist c) (cx_caret c) sg1 G1) as (G2 & O2).
+  pose proof (calc_segmentation_input cfg (cx_opts c) (cx_hist c) (cx_caret c) sg1) as I2.
+  assert (L2 : lfit false (sg_input sg1) (sg_segs (fst (calc_segmentation cfg (cx_opts c) (cx_hist c) (cx_caret c) sg1)))).
   { rewrite calc_segmentation_post. cbn [fst]. apply post_calc_lfit, L. }
-  assert (K2 : last_ok (sg_segs (fst (calc_segmentation cfg (cx_caret c) sg1)))).
+  assert (K2 : last_ok (sg_segs (fst (calc_segmentation cfg (cx_opts c) (cx_hist c) (cx_caret c) sg1)))).
   { rewrite calc_segmentation_post. cbn [fst]. apply post_calc_last. }
-  destruct (calc_segmentation cfg (cx_caret c) sg1) as [sg2 okf]. cbn [fst snd] in *. subst okf.
+  destruct (calc_segmentation cfg (cx_opts c) (cx_hist c) (cx_caret c) sg1) as [sg2 okf]. cbn [fst snd] in *. subst okf.
   destruct (g_translate (cx_opts c) sg2 G2) as (G3 & O3).
   unfold translate_segs in *.
   pose proof (translate_list_lfit (cx_opts c) (sg_input sg2) (sg_segs sg2) (proj2 G2)) as L3.
@@ -876,11 +885,54 @@ Proof.
   apply comp_commit_text_ok, (good_geo c H).
 Qed.
 
+(** the commit history's record: inside the input (geometry), [last] never dangles (source fact) *)
+Lemma hist_step_ok g0 input a g :
+  seg_geo (length input) g -> ha_ok a = true -> ha_ok (hist_step g0 input a g) = true.
+Proof.
+  intros (A & B) Ha. unfold hist_step. destruct (selected_cand g) as [cd|].
+  - destruct (match ha_last a with Some (t, _) => bytes_eqb t (c_type cd) | None => false end); cbn [ha_ok hacc_push]; exact Ha.
+  - pose proof (substr_se_ok input (s_start g) (s_end g) ltac:(lia)) as Hs.
+    destruct (substr_se input (s_start g) (s_end g)) as [t ok]. cbn [snd] in Hs. subst ok. cbn [ha_ok]. rewrite Ha. reflexivity.
+Qed.
+Lemma hist_fold_ok g0 input l : forall a, Forall (seg_geo (length input)) l -> ha_ok a = true ->
+  ha_ok (fold_left (hist_step g0 input) l a) = true.
+Proof.
+  induction l as [|g r IH]; intros a Hf Ha; [exact Ha|]. inversion Hf; subst. cbn [fold_left].
+  apply IH; [assumption | apply hist_step_ok; assumption].
+Qed.
+Lemma hist_push_comp_ok c : cinvT c ->
+  snd (fst (hist_push_comp (cf_hist_guard cfg) (cx_hist c) (cx_comp c) (cx_input c))) = true /\
+  snd (hist_push_comp (cf_hist_guard cfg) (cx_hist c) (cx_comp c) (cx_input c)) = true.
+Proof.
+  intros H. split.
+  - destruct (good_geo c H) as ((_ & Hf) & _). assert (Hlen2 : length (sg_input (cx_comp c)) <= length (cx_input c)) by apply H.
+    unfold hist_push_comp.
+    pose proof (hist_fold_ok (cf_hist_guard cfg) (cx_input c) (segs_fwd (cx_comp c)) (mkHacc (cx_hist c) None 0 true true)) as X.
+    set (a := fold_left _ _ _) in *. assert (Ha : ha_ok a = true).
+    { apply X; [|reflexivity]. unfold segs_fwd. apply Forall_rev. eapply Forall_impl; [|exact Hf]. intros g0 (A & B). split; lia. }
+    destruct (ha_end a <? length (cx_input c)); cbn [fst snd hacc_push ha_ok]; exact Ha.
+  - rewrite Hhg. wf hist_push_comp_live.
+Qed.
+
+Lemma commit_tail s : sinvT s -> cx_err (st_ctx s) = None ->
+  fit (st_ctx (fst (let '(h, okh, live) := hist_push_comp (cf_hist_guard cfg) (cx_hist (st_ctx s)) (cx_comp (st_ctx s)) (cx_input (st_ctx s)) in
+        let c := ctx_check (ctx_check (ctx_with_hist (st_ctx s) h) okh ErrSubstr) live ErrDangling in
+        let (text, ok) := ctx_commit_text c in
+        let s1 := sink (st_with_ctx s (ctx_check c ok ErrSubstr)) (format_text c text) in
+        (st_with_ctx s1 (clear cfg translate (st_ctx s1)), true)))).
+Proof.
+  intros H He. destruct (hist_push_comp_ok (st_ctx s) H) as (O1 & O2).
+  destruct (hist_push_comp (cf_hist_guard cfg) (cx_hist (st_ctx s)) (cx_comp (st_ctx s)) (cx_input (st_ctx s))) as [[h okh] live].
+  cbn [fst snd] in O1, O2. subst okh live. cbn [ctx_check].
+  pose proof (ctx_commit_text_ok (ctx_with_hist (st_ctx s) h) H) as Hok.
+  destruct (ctx_commit_text (ctx_with_hist (st_ctx s) h)) as [text ok]. cbn [snd] in Hok. subst ok.
+  cbn [fst st_ctx st_with_ctx sink ctx_check]. apply clear_fit. exact He.
+Qed.
+
 Lemma commit_good s : sgood s -> sgood (fst (commit cfg translate s)).
 Proof.
   intros (H & F). split; [wf commit_inv|]. unfold commit. destruct (negb (is_composing (st_ctx s))); [exact F|].
-  pose proof (ctx_commit_text_ok (st_ctx s) H) as Hok. destruct (ctx_commit_text (st_ctx s)) as [text ok]. cbn [snd] in Hok. subst ok.
-  cbn [fst st_ctx st_with_ctx sink ctx_check]. apply clear_fit, F.
+  apply commit_tail; [exact H | apply F].
 Qed.
 
 (** commit needs only the first invariant and a clear error flag *)
@@ -888,8 +940,7 @@ Lemma commit_good_gen s :
   sinvT s -> cx_err (st_ctx s) = None -> is_composing (st_ctx s) = true -> sgood (fst (commit cfg translate s)).
 Proof.
   intros H He Hc. split; [wf commit_inv|]. unfold commit. rewrite Hc. cbn [negb].
-  pose proof (ctx_commit_text_ok (st_ctx s) H) as Hok. destruct (ctx_commit_text (st_ctx s)) as [text ok]. cbn [snd] in Hok. subst ok.
-  cbn [fst st_ctx st_with_ctx sink ctx_check]. apply clear_fit, He.
+  apply commit_tail; assumption.
 Qed.
 
 (** ---- the one transient exception: a closed raw segment cut short by a partial
@@ -919,9 +970,9 @@ Proof.
   intros Es Hgeo P He Lr Hcl Hend Hraw Hlen1 Hst Hun Hen Hek Hka.
   apply compose_fit_core; [exact He | exact Hgeo|].
   destruct (compose_sg1_facts c Hgeo) as (G1 & _).
-  destruct c as [a k comp opts err]. destruct comp as [inp segs]. unfold prefix_ok in P. cbn in Es, P, Hen, Hek, Hka, Hun, Lr, He. subst segs.
+  destruct c as [a k comp opts err hs]. destruct comp as [inp segs]. unfold prefix_ok in P. cbn in Es, P, Hen, Hek, Hka, Hun, Lr, He. subst segs.
   remember (length inp) as n eqn:En.
-  assert (Esg1 : compose_sg1 (mkCtx a k (mkSegm inp (new_segment e e :: gb :: r)) opts err)
+  assert (Esg1 : compose_sg1 (mkCtx a k (mkSegm inp (new_segment e e :: gb :: r)) opts err hs)
                  = mkSegm (firstn k a) (new_segment e e :: gb :: r)).
   { unfold compose_sg1. cbn [cx_comp cx_caret cx_input].
     assert (E0 : reset_input (mkSegm inp (new_segment e e :: gb :: r)) (firstn k a) = mkSegm (firstn k a) (new_segment e e :: gb :: r)).
@@ -962,11 +1013,11 @@ Proof.
     split; [exact Hlen1|]. split; [lia|]. intros p Hp. apply Hun1. lia. }
   cbn [calc_loop]. unfold has_finished at 1. cbn [sgA sg_input cur_end sg_segs s_end new_segment]. rewrite Hl1.
   replace (k <=? e) with false by (symmetry; apply Nat.leb_gt; lia).
-  fold sgA. rewrite Hround. cbn [cur_start sgA sg_segs s_start new_segment cur_end sgX gX s_end seg_with_tags seg_clear seg_with_end].
+  fold sgA. rewrite round_eq, Hround. cbn [cur_start sgA sg_segs s_start new_segment cur_end sgX gX s_end seg_with_tags seg_clear seg_with_end].
   replace (e =? S e) with false by (symmetry; apply Nat.eqb_neq; lia).
   replace (k <=? e) with false by (symmetry; apply Nat.leb_gt; lia).
   destruct (has_finished sgX).
-  - apply (calc_loop_lfit false k k sgX GX LX).
+  - apply (calc_loop_lfit false _ _ k k sgX GX LX).
   - change inp1 with (sg_input sgX). rewrite <- (forward_input sgX).
     apply calc_loop_lfit; [apply g_forward, GX|]. rewrite forward_input. apply forward_lfit, LX.
 Qed.
@@ -1438,21 +1489,31 @@ Proof.
   repeat match goal with |- sgood (fst (if ?b then _ else _)) => destruct b; [exact H|] end. exact H.
 Qed.
 
+Lemma sgood_hist s h : sgood s -> sgood (on_ctx s (fun c => ctx_with_hist c h)).
+Proof. intros H; exact H. Qed.
+
+Lemma run_processors_good ps k :
+  (forall p, In p ps -> forall s, sgood s -> sgood (fst (p s k))) ->
+  forall s, sgood s -> sgood (fst (run_processors ps s k)).
+Proof.
+  induction ps as [|p r IH]; intros Hp s H; cbn [run_processors]; [exact H|].
+  pose proof (Hp p (or_introl eq_refl) s H) as H1. destruct (p s k) as [s1 ret]. cbn [fst] in H1.
+  destruct ret; cbn [fst]; try exact H1. apply IH; [|exact H1]. intros q Hq. apply Hp. right; exact Hq.
+Qed.
+
 Lemma process_key_good s k : sgood s -> sgood (fst (process_key cfg translate s k)).
 Proof.
-  intros H. unfold process_key, processors. cbn [run_processors].
-  pose proof (speller_process_good s k H) as H1.
-  destruct (speller_process cfg translate s k) as [s1 r1]. cbn [fst] in H1. destruct r1; cbn [fst]; try exact H1;
-    try (pose proof (shape_process_good s1 k H1) as Hs; destruct (shape_process s1 k) as [sx rx]; destruct rx; exact Hs).
-  pose proof (selector_process_good s1 k H1) as H2.
-  destruct (selector_process cfg translate s1 k) as [s2 r2]. cbn [fst] in H2. destruct r2; cbn [fst]; try exact H2;
-    try (pose proof (shape_process_good s2 k H2) as Hs; destruct (shape_process s2 k) as [sx rx]; destruct rx; exact Hs).
-  pose proof (navigator_process_good s2 k H2) as H3.
-  destruct (navigator_process cfg translate s2 k) as [s3 r3]. cbn [fst] in H3. destruct r3; cbn [fst]; try exact H3;
-    try (pose proof (shape_process_good s3 k H3) as Hs; destruct (shape_process s3 k) as [sx rx]; destruct rx; exact Hs).
-  pose proof (editor_process_good s3 k H3) as H4.
-  destruct (editor_process cfg translate s3 k) as [s4 r4]. cbn [fst] in H4. destruct r4; cbn [fst]; try exact H4;
-    try (pose proof (shape_process_good s4 k H4) as Hs; destruct (shape_process s4 k) as [sx rx]; destruct rx; exact Hs).
+  intros H. unfold process_key.
+  assert (H1 : sgood (fst (run_processors (processors cfg translate) s k))).
+  { apply run_processors_good; [|exact H]. intros p Hp s0 H0. unfold processors in Hp. apply in_map_iff in Hp as (i & <- & Hi).
+    destruct i; cbn [proc_of];
+      [apply speller_process_good | exfalso; exact (Hnp Hi) | apply selector_process_good
+       | apply navigator_process_good | apply editor_process_good]; exact H0. }
+  destruct (run_processors (processors cfg translate) s k) as [s1 ret]. cbn [fst] in H1.
+  pose proof (shape_process_good (on_ctx s1 (fun c => ctx_with_hist c (hist_push_key (cx_hist c) k))) k H1) as Hs.
+  destruct ret; cbn [fst]; try exact H1; cbv zeta;
+    destruct (shape_process (on_ctx s1 (fun c => ctx_with_hist c (hist_push_key (cx_hist c) k))) k) as [sx rx];
+    destruct rx; exact Hs.
 Qed.
 
 (** ---- the API layer ---- *)
@@ -1541,14 +1602,21 @@ Definition cands_fit (translate : bytes -> seginfo -> list cand) : Prop :=
 
 Definition is_obs (o : obs) : bool := match o with ObsCrash _ => false | Obs _ _ => true end.
 
+(** the chains this theorem covers (every configuration of the model before the punctuator
+    was added is of this form): segmentors [abc_segmentor, fallback_segmentor], any order of
+    speller / selector / navigator / editor, and the source fact about CommitHistory::Push *)
+Definition plain_chain (cfg : config) : Prop :=
+  cf_hist_guard cfg = true /\ cf_segmentors cfg = [SgAbc; SgFallback] /\ ~ In PPunctuator (cf_processors cfg).
+
 Theorem core_total (cfg : config) (translate : bytes -> seginfo -> list cand) :
   (1 <= cf_page_size cfg)%Z ->
   (forall i s, (Z.of_nat (length (translate i s)) + cf_page_size cfg < 2147483648)%Z) ->
   cf_del_checked cfg = true ->
+  plain_chain cfg ->
   cands_fit translate ->
   forall ops, forallb is_obs (snd (run cfg translate ops)) = true.
 Proof.
-  intros Hps Hlen Hdel Hfit ops. apply forallb_forall. intros o Ho.
-  pose proof (total_gen cfg translate Hps Hlen Hdel Hfit ops) as H. rewrite Forall_forall in H.
+  intros Hps Hlen Hdel (Hhg & Hseg & Hnp) Hfit ops. apply forallb_forall. intros o Ho.
+  pose proof (total_gen cfg translate Hps Hlen Hdel Hhg Hseg Hnp Hfit ops) as H. rewrite Forall_forall in H.
   destruct (H o Ho) as (r & v & ->). reflexivity.
 Qed.
